@@ -217,6 +217,16 @@ def install(ex):
             acc = a[1]
             for x in drain(a[0]): acc = call_closure(a[2], [acc, x], callee)
             return acc
+        if c.endswith("as Iterator>::try_for_each"):
+            for x in drain(a[0]):
+                r = call_closure(a[1], [x], callee)
+                rv = deref(r)
+                if isinstance(rv, EnumV) and rv.ty == "Result" and rv.disc == 1: return rv
+                if isinstance(rv, EnumV) and rv.ty == "Option" and rv.disc == 0: return rv
+                if isinstance(rv, EnumV) and rv.ty == "ControlFlow" and rv.disc == 1: return rv
+            if "Option<" in callee.rsplit("try_for_each", 1)[1]: return opt(TupleV([]))
+            if "ControlFlow<" in callee.rsplit("try_for_each", 1)[1]: return EnumV("ControlFlow", 0, [TupleV([])])
+            return EnumV("Result", 0, [TupleV([])])
         if c.endswith("as Iterator>::for_each"):
             for x in drain(a[0]): call_closure(a[1], [x], callee)
             return TupleV([])
